@@ -524,13 +524,15 @@ class Input(object):
                 return False
             key = self.keys[key_n]
             sig = self.signatures[sig_n]
-            if verify(transaction_hash, sig, key):
+            # The transaction hash is created for the hash type of this input, a signature with another hash type
+            # signs another hash
+            if sig.hash_type == self.hash_type and verify(transaction_hash, sig, key):
                 sigs_verified += 1
                 sig_n += 1
             elif sig_n > 0:
                 # try previous signature
                 prev_sig = deepcopy(self.signatures[sig_n - 1])
-                if verify(transaction_hash, prev_sig, key):
+                if prev_sig.hash_type == self.hash_type and verify(transaction_hash, prev_sig, key):
                     sigs_verified += 1
             key_n += 1
         self.valid = True
@@ -976,6 +978,8 @@ class Transaction(object):
                 inputs[n].script = script if not inputs[n].script else inputs[n].script + script
                 inputs[n].keys = script.keys
                 inputs[n].signatures = script.signatures
+                if len(script.signatures):
+                    inputs[n].hash_type = script.signatures[0].hash_type
                 if not script.script_types:
                     inputs[n].script_type = 'unknown'
                 elif script.script_types[0][:13] == 'p2sh_multisig' or script.script_types[0] =='signature_multisig':
